@@ -6,7 +6,7 @@ sc=$1; n=${2:-1000}; seed=${3:-1}; shift; shift || true; shift || true
 W=/verif/.work/${DEVTAG:-dev}; mkdir -p $W
 # build from a private copy so that files other people are still writing (SKIP="a.go b.go") do not break this build
 SRC=$W/src; mkdir -p $SRC; EX=""; for f in $SKIP; do EX="$EX --exclude=$f"; done
-rsync -a --delete $EX /verif/sim/ $SRC/
+rsync -a --delete --delete-excluded $EX /verif/sim/ $SRC/
 (cd $SRC && go1.26.8 test -c -tags verif -o $W/sim.test ./simtest)
 cd $W
 set +e
